@@ -7,6 +7,7 @@ import (
 	"fmt"
 	"os"
 	"os/exec"
+	"reflect"
 	"runtime"
 	"sort"
 	"strings"
@@ -23,6 +24,7 @@ import (
 	"github.com/ethereum/go-ethereum/common"
 	"github.com/ethereum/go-ethereum/core/types/goattypes"
 	goatmodtypes "github.com/goatnetwork/goat/x/goat/types"
+	relayertypes "github.com/goatnetwork/goat/x/relayer/types"
 	"google.golang.org/protobuf/encoding/protowire"
 	"verifharness/enga"
 	"verifharness/mc"
@@ -108,6 +110,32 @@ func mutateWire(b []byte, depth int, prefix string) []wireMut {
 		}
 	}
 	return out
+}
+
+// c19Revote decodes mutated message bytes into a fresh message of the same type and replaces its vote by
+// a genuine quorum vote over the mutated content (nil when the bytes do not decode or the message
+// cannot say what it wants signed).
+func c19Revote(w *enga.World, orig sdk.Msg, mutated []byte) (out []byte) {
+	defer func() {
+		if recover() != nil {
+			out = nil
+		}
+	}()
+	fresh := reflect.New(reflect.TypeOf(orig).Elem()).Interface()
+	if err := proto.Unmarshal(mutated, fresh.(proto.Message)); err != nil {
+		return nil
+	}
+	vm := fresh.(relayertypes.IVoteMsg)
+	f := reflect.ValueOf(fresh).Elem().FieldByName("Vote")
+	if !f.IsValid() || !f.CanSet() {
+		return nil
+	}
+	f.Set(reflect.ValueOf(w.Vote(vm.MethodName(), vm.VoteSigDoc())))
+	bz, err := proto.Marshal(fresh.(proto.Message))
+	if err != nil {
+		return nil
+	}
+	return bz
 }
 
 // c19SignRaw wraps raw message bytes into a correctly signed transaction.
@@ -197,7 +225,7 @@ func c19Cases(w *enga.World, state string, thorough bool) []*c19Case {
 	if thorough {
 		depth = 3
 	}
-	events := []enga.Event{{Kind: "tx:hashes", N: 2}, {Kind: "tx:deposits", N: 2}, {Kind: "tx:newpubkey"}, {Kind: "tx:process", N: 1}, {Kind: "tx:replace"},
+	events := []enga.Event{{Kind: "tx:hashes", N: 2}, {Kind: "tx:hashes", N: 1}, {Kind: "tx:deposits", N: 2}, {Kind: "tx:newpubkey"}, {Kind: "tx:process", N: 1}, {Kind: "tx:replace"},
 		{Kind: "tx:finalize"}, {Kind: "tx:approve"}, {Kind: "tx:consolidation"}, {Kind: "tx:newvoter"}, {Kind: "tx:accept"}}
 	if state == "big-batch" {
 		events = append(events, enga.Event{Kind: "tx:process", N: 32})
@@ -217,6 +245,22 @@ func c19Cases(w *enga.World, state string, thorough bool) []*c19Case {
 		muts := mutateWire(bz, depth, "")
 		for _, m := range muts {
 			cases = append(cases, &c19Case{State: state, Kind: "relayer-tx", Desc: url + " " + m.name, tx: c19SignRaw(w, key, 0, url, m.out, 0)})
+		}
+		// A mutation of a voted message normally dies on its vote (the signature covers the original
+		// payload), so the handler behind the vote never sees it. Every mutation that still decodes is
+		// therefore delivered a second time with a genuine quorum vote over the *mutated* content: what a
+		// relayer quorum can be brought to sign (an empty hash list, a zero id, a boundary fee ...) must
+		// be applied or refused without harming the blocks after it either.
+		if _, voted := msg.(relayertypes.IVoteMsg); voted {
+			seen := map[string]bool{string(bz): true}
+			for _, m := range muts {
+				rb := c19Revote(w, msg, m.out)
+				if rb == nil || seen[string(rb)] {
+					continue
+				}
+				seen[string(rb)] = true
+				cases = append(cases, &c19Case{State: state, Kind: "relayer-tx", Desc: url + " " + m.name + " (re-voted by a genuine quorum)", tx: c19SignRaw(w, key, 0, url, rb, 0)})
+			}
 		}
 		if thorough {
 			// deviation bound 2: a second single mutation applied to every singly mutated top-level encoding
@@ -307,8 +351,8 @@ func c19Cases(w *enga.World, state string, thorough bool) []*c19Case {
 		"two-gas":           {append([]byte{goattypes.GasRequestType}, make([]byte, 80)...)},
 		// a well-formed lock of a token that is not listed, to the node's own (existing, active) validator
 		"lock-unlisted-token": {append(append([]byte{goattypes.LockRequestType}, ethKey.EthAddr().Bytes()...), append(bytes.Repeat([]byte{0x77}, 20), append(make([]byte, 31), 5)...)...)},
-		"rbf-unknown-id":    {append([]byte{goattypes.ReplaceByFeeRequestType}, make([]byte, 16)...)},
-		"cancel-unknown-id": {append([]byte{goattypes.Cancel1RequestType}, make([]byte, 8)...)},
+		"rbf-unknown-id":      {append([]byte{goattypes.ReplaceByFeeRequestType}, make([]byte, 16)...)},
+		"cancel-unknown-id":   {append([]byte{goattypes.Cancel1RequestType}, make([]byte, 8)...)},
 	}
 	// well-formed membership requests that the relayer module has to weigh against what is already queued
 	{
@@ -511,7 +555,7 @@ func C19Worker(state string, from, to int, thorough bool) {
 }
 
 func runC19(r *mc.Run) {
-	r.Rule = "for five reachable states (fresh; right after an election with a proposer that has not accepted yet; busy: voted hashes, deposits, pending/processing/cancelling withdrawals, pending voter; a voter removal already queued; big-batch: 20 withdrawals in one processing batch and 20 more pending, well-formed messages only, incl. a 20-id processing message and the finalisation that queues 20 paid notices): every single wire-level mutation (drop, duplicate, boundary integers, empty / +1 / -1 / bit-flipped / 33-byte / 1-byte strings, recursively two levels deep) of a well-formed instance of every relayer and bridge message, correctly signed so that it reaches the handler; vote bitmaps of every length 0..33; truncations and wire mutations of the raw transaction; wire mutations of the execution-block message and an execution-layer request grammar (malformed items and well-formed membership removals), every applied proposal or transaction being followed by the election block and one more; each delivered through CheckTx, ProcessProposal and FinalizeBlock in crash-contained worker processes"
+	r.Rule = "for five reachable states (fresh; right after an election with a proposer that has not accepted yet; busy: voted hashes, deposits, pending/processing/cancelling withdrawals, pending voter; a voter removal already queued; big-batch: 20 withdrawals in one processing batch and 20 more pending, well-formed messages only, incl. a 20-id processing message and the finalisation that queues 20 paid notices): every single wire-level mutation (drop, duplicate, boundary integers, empty / +1 / -1 / bit-flipped / 33-byte / 1-byte strings, recursively two levels deep) of a well-formed instance of every relayer and bridge message, correctly signed so that it reaches the handler; every mutation of a voted message that still decodes once more with a genuine quorum vote over the mutated content (so that the handler behind the vote is the deciding rule, e.g. an empty hash list voted at tip+1), followed through the next blocks; vote bitmaps of every length 0..33; truncations and wire mutations of the raw transaction; wire mutations of the execution-block message and an execution-layer request grammar (malformed items and well-formed membership removals), every applied proposal or transaction being followed by the election block and one more; each delivered through CheckTx, ProcessProposal and FinalizeBlock in crash-contained worker processes"
 	r.Assumptions = []string{"a proposal rejected by ProcessProposal is not forced into FinalizeBlock (honest validators never finalise it; engine verdicts at finalisation are C09's subject)", "account sequences are not part of 'state exactly as it was'"}
 	self, err := os.Executable()
 	must(err)
